@@ -3,25 +3,33 @@ from __future__ import annotations
 
 import json
 import math
+import time
 
 from .. import core
-from ..core import Broken, Ctx, Violation
+from ..core import Broken, Ctx, TranslationError, Violation
 
 PROP_FILE = "Properties/C14.v"
 
 TRUSTED = [
+    "translator/c14.py (python-ast -> Gen_C14.v, fail closed): the two subscript expressions of the njit loop of "
+    "convert_df_to_array, the mask applied before it, `+=` on the column `number`, the selection threshold of "
+    "convert_array_to_df, the pixel-centre polynomials and layouts of geometry.get_*_pixel_center_pos",
     "correspondence harness: harness/props/c14.py generators, harness/drivers/c14.py (real detector.charge of a CCD; "
-    "observables: every `.array` read, the (index, number, position_ver, position_hor) columns of `.frame` after every "
-    "op, ValueError of add_charge_array); exact float -> Qmake literals",
+    "observables: every `.array` / `.to_xarray()` read, the (index, number, position_ver, position_hor) columns of "
+    "`.frame` after every op, ValueError of add_charge_array); exact float -> Qmake literals",
     "out-of-bounds writes are OBSERVED through numba's own bounds check (NUMBA_BOUNDSCHECK=1) or plain numpy "
     "indexing (NUMBA_DISABLE_JIT=1): an IndexError there means the default build writes outside the buffer; "
     "a sample of cases also runs in numba's default configuration in isolated child processes",
-    "modelled, not verified: numpy float64 arithmetic on the generated (exactly representable) inputs equals "
-    "rational arithmetic; np.floor_divide = floor of the exact quotient on those inputs; pandas concat/query "
-    "index semantics; numba wraparound indexing (index in [-n,-1] -> n+index, otherwise out of bounds)",
+    "modelled, not verified: numpy float64 arithmetic on the generated (exactly representable) charge values equals "
+    "rational arithmetic; np.floor_divide = floor of the exact quotient of the two binary64 values; boolean-mask "
+    "indexing of numpy arrays; pandas concat/query index semantics; numba wraparound indexing (index in [-n,-1] -> "
+    "n+index, otherwise out of bounds)",
 ]
 
 SIZES = [0.25, 0.5, 1.0, 2.0, 4.0, 8.0, 16.0, 10.0, 3.0, 1.5]
+# pixel sizes whose multiples are NOT exact in binary64 (stream "inexact"): a border computed as k*s is rounded, and
+# the pixel centres the implementation computes differ from the exact ones by an ulp or two
+INEXACT_SIZES = [0.1, 0.3, 0.7, 1.1, 18.0, 0.0025, 1.0 / 3.0, 10.0 / 3.0, 15.0, 7.5, 0.9, 2.2, 12.3, 999.9, 0.015]
 
 
 # ------------------------------------------------------------------------------------------ generators
@@ -42,7 +50,10 @@ def gen_pos(r, n: int, s: float, cls: str) -> float:
         return below((k + 1) * s)
     if cls == "interior":
         return (k + r.choice([1, 2, 3, 5, 6, 7]) / 8.0) * s
-    if cls == "neg":  # index in [-n, -1]: wraps
+    if cls == "fborder":  # a border as binary64 computes it (k*s rounded) and its two neighbours; k = n is outside
+        b = r.randrange(n + 1) * s
+        return r.choice([b, math.nextafter(b, math.inf), below(b)])
+    if cls == "neg":  # index in [-n, -1]: wrapped to the opposite edge before the repair of C14-F4a
         return r.choice([-s / 2, -s, -(2.0 ** -20), -n * s, -(k + 0.25) * s, below(0.0) if False else -s / 4])
     if cls == "beyond1":  # exactly one pixel past the end (index n)
         return r.choice([n * s, (n + 0.5) * s, below((n + 1) * s)])
@@ -57,9 +68,14 @@ INSIDE = ["centre", "border", "below_border", "interior"]
 
 
 def gen_cluster(r, g, flavour):
-    """flavour: inside | neg | beyond1 | beyond"""
-    n = r.choice([1, 1, 2, 3, 5, 0.25, 0.5, 7, 100, 0]) * 1.0
+    """flavour: inside | neg | beyond1 | beyond | float (around binary64 borders; may fall outside)"""
+    # 2^24 + 1 needs more than binary32's 24 bits: an accumulation in a narrower type than float64 shows
+    n = r.choice([1, 1, 2, 3, 5, 0.25, 0.5, 7, 100, 0, 1, 2, 3, 5, 16777217]) * 1.0
     cv, ch = r.choice(INSIDE), r.choice(INSIDE)
+    if flavour == "float":
+        cv = r.choice(["fborder", "fborder", "centre", "interior", "neg"])
+        ch = r.choice(["fborder", "fborder", "centre", "interior"])
+        return [n, gen_pos(r, g["rows"], g["ph"], cv), gen_pos(r, g["cols"], g["pw"], ch)]
     if flavour != "inside":
         axis = r.choice(["v", "h", "both"])
         if flavour == "neg":
@@ -97,8 +113,11 @@ def gen_array(r, g, kind="ok"):
 
 
 def gen_case(r, stream: str):
-    """stream: clean (no removals, all inside) | removal | outside | malformed | unsafe1 (beyond by one only)"""
-    g = dict(rows=r.randrange(1, 7), cols=r.randrange(1, 7), ph=r.choice(SIZES), pw=r.choice(SIZES))
+    """stream: clean (no removals, all inside) | removal | outside | malformed | unsafe1 (beyond by one only) |
+    inexact (pixel sizes like 0.1: positions around the borders binary64 computes, removals, outside clusters)"""
+    sizes = INEXACT_SIZES if stream == "inexact" else SIZES
+    g = dict(rows=r.randrange(1, 7), cols=r.randrange(1, 7), ph=r.choice(sizes), pw=r.choice(sizes))
+    g["reset_via"] = r.choice(["charge", "charge", "detector"])
     nops = r.randrange(1, 11)
     ops = []
     if stream == "clean":
@@ -107,21 +126,41 @@ def gen_case(r, stream: str):
         w = dict(arr=24, cl=26, read=20, frame=2, reset=6, rmall=10, rm=14)
     elif stream in ("outside", "unsafe1"):
         w = dict(arr=24, cl=36, read=24, frame=2, reset=6, rmall=3, rm=3)
+    elif stream == "inexact":
+        w = dict(arr=22, cl=36, read=24, frame=2, reset=5, rmall=4, rm=7)
     else:
         w = dict(arr=30, cl=24, read=22, frame=2, reset=6, rmall=6, rm=8)
     names, weights = list(w), list(w.values())
-    nframe = 0  # rough count of live clusters (only to pick plausible ids)
+    # a small simulation of the container (labels of the live clusters, charge held as array), only to aim the
+    # generator: removals that hit existing labels, partial removals right after a read, ...
+    labels: list[int] = []
+    held = [[0.0] * g["cols"] for _ in range(g["rows"])]
+    just_read = False
     out_used = False
+
+    def positives(m):
+        return sum(1 for row in m for x in row if x > 0)
+
     for t in range(nops):
         k = r.choices(names, weights)[0]
+        if "rm" in w and just_read and len(labels) >= 2 and r.random() < 0.4:
+            k = "rm"                                  # read; partial removal: the cached array must follow
+        just_read = False
         if k == "arr":
             kind = "ok"
             if stream == "malformed":
                 kind = r.choice(["ok", "shape", "neg", "neg"])
             a = gen_array(r, g, kind)
-            ops.append(dict(op="arr", a=a))
-            if nframe:
-                nframe += sum(1 for row in a for x in row if x > 0)
+            dt = r.choice(["f8", "f8", "f8", "f4", "f2"])
+            if dt == "f8" and r.random() < 0.15:      # one entry that binary32 cannot hold (only where the input is float64)
+                i, j = r.randrange(len(a)), r.randrange(len(a[0]))
+                a[i][j] = 16777217.0 if a[i][j] >= 0 else a[i][j]
+            ops.append(dict(op="arr", a=a, dt=dt))
+            if len(a) == g["rows"] and all(len(row) == g["cols"] for row in a):
+                if labels:
+                    labels = list(range(len(labels) + positives(a)))
+                else:
+                    held = [[x + y for x, y in zip(ra, rb)] for ra, rb in zip(held, a)]
         elif k == "cl":
             m = r.choice([0, 1, 1, 2, 3, 4]) if t else r.choice([1, 2, 3])
             cs = []
@@ -133,25 +172,72 @@ def gen_case(r, stream: str):
                 elif stream == "unsafe1" and not out_used:
                     fl = "beyond1"
                     out_used = True
+                elif stream == "inexact":
+                    fl = "float"
                 cs.append(gen_cluster(r, g, fl))
             ops.append(dict(op="cl", cs=cs))
-            nframe += m + 3
+            if labels:
+                labels = list(range(len(labels) + m))
+            else:
+                n0 = positives(held) if any(x != 0 for row in held for x in row) else 0
+                labels = list(range(n0 + m))
         elif k == "rm":
-            hi = max(2, min(nframe, 12))
-            ids = sorted(set(r.randrange(0, hi) for _ in range(r.choice([1, 1, 2, 3, hi]))))
+            u = r.random()
+            if labels and u < 0.65:                   # some of the live labels (partial when possible)
+                ids = sorted(r.sample(labels, r.randrange(1, max(2, min(len(labels), 4)))))
+            elif labels and u < 0.75:                 # all of them, by label
+                ids = list(labels)
+            else:
+                hi = max(2, min(len(labels) + 3, 12))
+                ids = sorted(set(r.randrange(0, hi) for _ in range(r.choice([1, 1, 2, 3, hi]))))
             if r.random() < 0.08:
                 ids = []
             ops.append(dict(op="rm", ids=ids))
+            had = bool(labels)
+            labels = [x for x in labels if x not in ids] if ids else []
+            if had and not labels:
+                held = [[0.0] * g["cols"] for _ in range(g["rows"])]
         elif k == "rmall":
             ops.append(dict(op="rmall"))
-            nframe = 0
+            if labels:
+                held = [[0.0] * g["cols"] for _ in range(g["rows"])]
+            labels = []
         elif k == "reset":
             ops.append(dict(op="reset"))
-            nframe = 0
+            labels = []
+            held = [[0.0] * g["cols"] for _ in range(g["rows"])]
+        elif k == "read":
+            # the three ways the container reports its array: .array, .to_xarray(), numpy's array protocol
+            ops.append(dict(op=r.choice(["read", "read", "read", "xr", "np"])))
+            just_read = bool(labels)
         else:
             ops.append(dict(op=k))
     ops.append(dict(op="read"))
     return dict(g, ops=ops, stream=stream)
+
+
+ENUM_ALPHABET = [
+    dict(op="arr", a=[[1.0, 0.0]]),
+    dict(op="cl", cs=[[4.0, 0.5, 0.5]]),      # pixel 0
+    dict(op="cl", cs=[[8.0, 0.5, 1.0]]),      # on the border: pixel 1
+    dict(op="cl", cs=[[16.0, 0.5, 2.0]]),     # on the far edge: outside
+    dict(op="read"), dict(op="xr"), dict(op="np"), dict(op="rmall"), dict(op="rm", ids=[0]), dict(op="rm", ids=[1]),
+    dict(op="reset"),
+]
+
+
+def enum_cases(max_len: int):
+    """EVERY op sequence of length 1..max_len over ENUM_ALPHABET on a 1x2 detector (+ a final read): exhaustive
+    small-scope coverage of the state machine (which representation holds the charge, cached array, labels).
+    The charge values are distinct powers of two, so every mis-accounting shows in the sum."""
+    import itertools
+
+    out = []
+    for n in range(1, max_len + 1):
+        for seq in itertools.product(range(len(ENUM_ALPHABET)), repeat=n):
+            ops = [dict(ENUM_ALPHABET[i]) for i in seq] + [dict(op="read")]
+            out.append(dict(rows=1, cols=2, ph=1.0, pw=1.0, reset_via="charge", ops=ops, stream="enum"))
+    return out
 
 
 CORPUS = [
@@ -170,6 +256,12 @@ CORPUS = [
     dict(rows=2, cols=2, ph=1.0, pw=1.0, stream="removal",
          ops=[dict(op="arr", a=[[1.0, 0.0], [0.0, 2.0]]), dict(op="cl", cs=[[5.0, 0.5, 0.5]]), dict(op="rmall"),
               dict(op="read")]),
+    # F6 numpy's array protocol ignored the clusters
+    dict(rows=1, cols=2, ph=1.0, pw=1.0, stream="clean",
+         ops=[dict(op="cl", cs=[[4.0, 0.5, 0.5]]), dict(op="np")]),
+    dict(rows=1, cols=2, ph=1.0, pw=1.0, stream="clean",
+         ops=[dict(op="arr", a=[[1.0, 0.0]]), dict(op="cl", cs=[[4.0, 0.5, 1.5]]), dict(op="read"),
+              dict(op="cl", cs=[[8.0, 0.5, 1.0]]), dict(op="np"), dict(op="xr")]),
     # mixed representations, borders
     dict(rows=3, cols=2, ph=2.0, pw=0.5, stream="clean",
          ops=[dict(op="arr", a=[[1.0, 0.0], [0.0, 2.0], [0.0, 0.0]]), dict(op="read"),
@@ -276,6 +368,10 @@ def classify(c, res, k_bad: int):
     for name in ("beyond_range", "negative_wrap", "stale_array_after_removal"):
         if name in classes:
             return name
+    if ops and ops[-1]["op"] == "np":
+        return "array_protocol"
+    if ops and ops[-1]["op"] == "xr":
+        return "to_xarray"
     return "accounting"
 
 
@@ -302,35 +398,57 @@ def cop(o) -> str:
         return f"AddClusters {core.clist(ccl(c) for c in o['cs'])}"
     if k == "rm":
         return f"Remove {core.clist(core.cz(i) for i in o['ids'])}"
-    return {"read": "Read", "frame": "ReadFrame", "rmall": "RemoveAll", "reset": "Reset"}[k]
+    return {"read": "Read", "xr": "Read", "np": "Read", "frame": "ReadFrame", "rmall": "RemoveAll", "reset": "Reset"}[k]
 
 
-def cobs(rec) -> str:
+def cobs(rec, prev) -> str:
+    """One observation; the frame is written as (length of the prefix shared with the previous frame, the rest)."""
     o = rec["o"]
     if o == "arr":
         ob = f"OArr {cmat(rec['m'])}"
     else:
         ob = {"unit": "OUnit", "raise": "ORaise", "corrupt": "OCorrupt"}[o]
-    fr = core.clist(f"({core.cz(f[0])}, C {q(f[1])} {q(f[2])} {q(f[3])})" for f in rec.get("f", []))
-    return f"({ob}, {fr})"
+    cur = rec.get("f", [])
+    k = 0
+    while k < len(prev) and k < len(cur) and prev[k] == cur[k]:
+        k += 1
+    fr = core.clist(f"({core.cz(f[0])}, C {q(f[1])} {q(f[2])} {q(f[3])})" for f in cur[k:])
+    return f"({ob}, ({core.cnat(k)}, {fr}))"
+
+
+def cobs_all(trace) -> str:
+    out, prev = [], []
+    for rec in trace:
+        out.append(cobs(rec, prev))
+        prev = rec.get("f", [])
+    return core.clist(out)
 
 
 def emit_case(c, res, checked: bool) -> str:
     g = (f"{{| g_rows := {core.cnat(c['rows'])}; g_cols := {core.cnat(c['cols'])}; g_ph := {q(c['ph'])}; "
          f"g_pw := {q(c['pw'])} |}}")
     return (f"{{| k_g := {g};\n     k_ops := {core.clist(cop(o) for o in c['ops'])};\n     k_checked := {core.cbool(checked)};\n"
-            f"     k_obs := {core.clist(cobs(t) for t in res['trace'])} |}}")
+            f"     k_loose := {core.cbool(is_loose(c))};\n"
+            f"     k_obs_d := {cobs_all(res['trace'])} |}}")
 
 
-def emit_file(triples) -> str:
+def is_loose(c) -> bool:
+    """Pixel sizes whose multiples binary64 rounds: frame positions are compared by the pixel they fall into."""
+    return c.get("stream") == "inexact" or c["ph"] not in SIZES or c["pw"] not in SIZES
+
+
+def emit_file(triples, selfcheck=False) -> str:
+    """selfcheck (thorough tier): also evaluate ideal container vs accumulator on every removal-free case --
+    proved (C14_ideal_is_accumulator), so the quick tier does not spend time on it."""
     body = ";\n  ".join(emit_case(c, r, ch) for c, r, ch in triples)
     return ("From Coq Require Import ZArith QArith List.\nFrom PyxelV Require Import Model.Charge.\n"
+            "From PyxelGen Require Import Gen_C14.\n"
             "Import ListNotations.\nOpen Scope Q_scope.\nDefinition C := Build_cluster.\n"
             f"Definition cases : list ccase := [\n  {body}\n].\n"
-            "Eval vm_compute in mismatches cases.\n"
+            "Eval vm_compute in mismatches src cases.\n"
             "Eval vm_compute in violations cases.\n"
             "Eval vm_compute in first_bads cases.\n"
-            "Eval vm_compute in selfcheck cases.\n")
+            + ("Eval vm_compute in selfcheck cases.\n" if selfcheck else ""))
 
 
 # ------------------------------------------------------------------------------------------ legs
@@ -362,20 +480,21 @@ def evaluate(ctx: Ctx, items, tag: str):
             continue
         triples.append((c, r, mode != "default"))
         kept.append((c, r, mode))
-    per = 80
-    files = {f"{tag}_{k // per:03d}": emit_file(triples[k:k + per]) for k in range(0, len(triples), per)}
+    per = 80 if ctx.quick else 160
+    files = {f"{tag}_{k // per:03d}": emit_file(triples[k:k + per], selfcheck=not ctx.quick)
+             for k in range(0, len(triples), per)}
     res = core.coq_eval_many(ctx, files, timeout=900, par=8)
     mism, viol = [], []
     for k, name in enumerate(sorted(files)):
         ok, evals, se = res[name]
         chunk = kept[k * per:(k + 1) * per]
-        if not ok or len(evals) != 4:
+        if not ok or len(evals) != (3 if ctx.quick else 4):
             ctx.broken.append(Broken("correspondence", f"case file {name}.v did not evaluate", core.tail(se, 15)))
             continue
         mi = set(core.parse_int_list(evals[0]))
         vi = core.parse_int_list(evals[1])
         fb = core.parse_int_list(evals[2])
-        sc = core.parse_int_list(evals[3])
+        sc = core.parse_int_list(evals[3]) if len(evals) > 3 else []
         for i in sorted(mi):
             mism.append(chunk[i])
         for i in vi:
@@ -390,10 +509,11 @@ def to_violation(item, k_bad: int, mismatching: bool) -> Violation:
     c, res, mode = item
     clause = classify(c, res, k_bad)
     tr = res.get("trace", [])
-    short = dict(rows=c["rows"], cols=c["cols"], ph=c["ph"], pw=c["pw"], ops=c["ops"][:k_bad], mode=mode)
+    short = dict(rows=c["rows"], cols=c["cols"], ph=c["ph"], pw=c["pw"], ops=c["ops"][:k_bad], mode=mode,
+                 reset_via=c.get("reset_via", "charge"), stream=c.get("stream"))
     obs = tr[k_bad - 1] if 0 < k_bad <= len(tr) else dict(o="crash" if res.get("crashed") else "missing")
     observed = dict(o=obs.get("o"), m=obs.get("m"), crashed=res.get("crashed", False))
-    sig = dict(clause=clause, explained_by_model=not mismatching)
+    sig = dict(clause=clause)
     what = (f"{c['rows']}x{c['cols']} pixels of {c['ph']}x{c['pw']}: the read after op {k_bad} returns "
             f"{observed['o']} {observed.get('m')} which is not the sum of the charge added since the last reset "
             f"(class {clause}, mode {mode})")
@@ -403,10 +523,123 @@ def to_violation(item, k_bad: int, mismatching: bool) -> Violation:
                      what=what, sig=sig)
 
 
+def first_bads_of(ctx: Ctx, triples, tag: str):
+    """Side-effect-free judge: the `first_bads` list of a case file, or None if it does not evaluate."""
+    if not triples:
+        return []
+    ok, evals, _ = core.coq_eval(ctx, tag, emit_file(triples), timeout=600)
+    if not ok or len(evals) < 3:
+        return None
+    return core.parse_int_list(evals[2])
+
+
+def shrink(ctx: Ctx, item, k_bad: int, rounds: int = 8):
+    """Greedy one-at-a-time reduction of a failing case (ops truncated at the first bad read): drop an op, or one
+    cluster of a cluster op, as long as some read is still judged wrong inside Coq.  Runs only when a violation was
+    found; never for cases that may write out of bounds in the default numba configuration."""
+    c, res, mode = item
+    if mode == "default" or k_bad <= 0:
+        return item, k_bad
+    cur, cur_res = dict(c, ops=c["ops"][:k_bad]), res
+    for rnd in range(rounds):
+        ops = cur["ops"]
+        cands = [dict(cur, ops=ops[:i] + ops[i + 1:]) for i in range(len(ops) - 1)]
+        for i, o in enumerate(ops[:-1]):
+            if o["op"] == "cl" and len(o["cs"]) > 1:
+                cands += [dict(cur, ops=ops[:i] + [dict(o, cs=o["cs"][:j] + o["cs"][j + 1:])] + ops[i + 1:])
+                          for j in range(len(o["cs"]))]
+        if not cands:
+            break
+        rs = run_impl(ctx, cands, mode, workers=4)
+        good = [(cd, r) for cd, r in zip(cands, rs) if "trace" in r]
+        fb = first_bads_of(ctx, [(cd, r, mode != "default") for cd, r in good], f"shrink_{rnd}")
+        if fb is None:
+            break
+        better = [(k, cd, r) for (cd, r), k in zip(good, fb) if k > 0]
+        if not better:
+            break
+        k, cd, r = min(better, key=lambda t: (t[0], sum(len(o.get("cs", [])) for o in t[1]["ops"])))
+        cur, cur_res = dict(cd, ops=cd["ops"][:k]), dict(r, trace=r["trace"][:k])
+    return (cur, cur_res, mode), len(cur["ops"])
+
+
+def report_violations(ctx: Ctx, viol):
+    """One shrunk representative per failure class first (these become the replay files), then the rest."""
+    by = {}
+    for item, k_bad, mm in viol:
+        by.setdefault(classify(item[0], item[1], k_bad), []).append((item, k_bad, mm))
+    firsts = []
+    for clause, lst in by.items():
+        item, k_bad, mm = min(lst, key=lambda t: (t[0][2] == "default", t[1]))
+        if len(firsts) < 6:
+            try:
+                item2, k2 = shrink(ctx, item, k_bad)
+                v = to_violation(item2, k2, mm)     # classified again: the shrunk case names its class more precisely
+            except Exception as ex:  # noqa: BLE001  -- shrinking is a convenience, never a reason to lose a violation
+                ctx.log(f"shrink failed ({type(ex).__name__}: {ex}); reporting the unshrunk case")
+                v = to_violation(item, k_bad, mm)
+        else:
+            v = to_violation(item, k_bad, mm)
+        firsts.append(v)
+    ctx.violations += firsts
+    ctx.violations += [to_violation(item, k_bad, mm) for item, k_bad, mm in viol]
+
+
+def trace_events(c, r) -> set:
+    """Situations a sequence actually went through, read off the observed frames (which state the container was in
+    when an op arrived) -- the conditions the state machine branches on."""
+    ev = set()
+    tr = r.get("trace", [])
+    prev, dirty, fresh = [], False, True      # frame before the op; array mode holds charge; no read since the frame changed
+    for o, t in zip(c["ops"], tr):
+        cur, k = t.get("f", []), o["op"]
+        if k == "arr" and t.get("o") == "unit":
+            pos = any(x > 0 for row in o["a"] for x in row)
+            ev.add("arr_on_frame" if prev else "arr_in_array_mode")
+            if o.get("dt", "f8") != "f8":
+                ev.add("arr_narrow_dtype")
+            if not prev and pos:
+                dirty = True
+        elif k == "cl":
+            if not prev and dirty and o["cs"]:
+                ev.add("array_converted_to_clusters")
+            if prev and o["cs"]:
+                ev.add("clusters_appended")
+            if not o["cs"]:
+                ev.add("empty_cluster_list")
+        elif k in ("rm", "rmall"):
+            if prev and not cur:
+                ev.add("removal_empties_frame" + ("" if fresh else "_after_read"))
+            elif prev and len(cur) < len(prev):
+                ev.add("removal_partial" + ("" if fresh else "_after_read"))
+            elif prev:
+                ev.add("removal_misses")
+            else:
+                ev.add("removal_in_array_mode" + ("_with_charge" if dirty else ""))
+        elif k in ("read", "xr", "np"):
+            if prev:
+                ev.add(k + ("_first_on_frame" if fresh else "_repeated_on_frame"))
+            elif k != "read":
+                ev.add(k + "_in_array_mode")
+        elif k == "reset":
+            ev.add("reset_on_frame" + ("" if fresh else "_after_read") if prev else "reset_in_array_mode")
+            dirty = False
+        if k in ("read", "xr", "np") and prev:
+            fresh = False
+        if cur != prev:
+            fresh = True
+            if not cur:
+                dirty = False
+        prev = cur
+    return ev
+
+
 def account(ctx: Ctx, kept):
     seen = set()
     for c, r, mode in kept:
         f = case_features(c)
+        for e in sorted(trace_events(c, r)):
+            ctx.dist("situation", e)
         ctx.count("evaluations", len(r.get("trace", [])))
         ctx.count("sequences")
         ctx.dist("mode", mode)
@@ -426,34 +659,64 @@ def account(ctx: Ctx, kept):
 def correspondence(ctx: Ctx, plan, tag="c"):
     """plan: [(cases, mode, workers, batch, per_child)]"""
     items = []
+    ph = ctx.cov.setdefault("phase_seconds", {})
     for cases, mode, workers, batch, per_child in plan:
+        t = time.time()
         rs = run_impl(ctx, cases, mode, workers=workers, batch=batch, per_child=per_child)
+        ph[f"{tag}:impl:{mode}"] = round(ph.get(f"{tag}:impl:{mode}", 0) + time.time() - t, 1)
         items += [(c, r, mode) for c, r in zip(cases, rs)]
-    return evaluate(ctx, items, tag)
+    t = time.time()
+    out = evaluate(ctx, items, tag)
+    ph[f"{tag}:coq_eval"] = round(time.time() - t, 1)
+    return out
+
+
+def proof(ctx: Ctx):
+    """Regenerate Gen_C14.v from the source under test, compile it and the property file.  Whatever happens,
+    leave a compiled Gen_C14 behind (the FALLBACK if need be) so that the case files have a model."""
+    from translator import c14 as tr
+
+    try:
+        text = tr.translate(ctx.repo)
+    except TranslationError as ex:
+        ctx.broken.append(Broken("translation", "translator/c14.py (charge.py, geometry.py -> Gen_C14.v)", str(ex)))
+        ctx.log(f"translation failed: {ex}")
+        text = tr.FALLBACK
+    ctx.cov["generated_equals_fallback"] = text == tr.FALLBACK
+    core.proof_leg(ctx, {"Gen_C14.v": text}, PROP_FILE)
+    gen = ctx.build / "gen"
+    if not (gen / "Gen_C14.vo").exists():
+        (gen / "Gen_C14.v").write_text(tr.FALLBACK)
+        core.coqc(ctx, gen / "Gen_C14.v", [(gen, "PyxelGen")], 300)
 
 
 def run(ctx: Ctx):
     ctx.trusted += TRUSTED
     ctx.assumptions += [
         "array additions are non-negative (cases with negative entries are compared with the model but not judged)",
-        "pixel sizes > 0; all generated numbers are exactly representable so that float arithmetic is exact",
+        "pixel sizes > 0; charge values are small dyadic numbers so that float sums are exact; positions and pixel "
+        "sizes are arbitrary binary64 values taken as the exact rationals they are",
         "only Charge built by a Detector and clusters added through Charge.add_charge (RangeIndex frames)",
     ]
-    core.proof_leg(ctx, {}, PROP_FILE)
+    t = time.time()
+    proof(ctx)
+    ctx.cov.setdefault("phase_seconds", {})["proof_leg"] = round(time.time() - t, 1)
 
     r = ctx.rng("cases")
     corpus = load_corpus()
-    n_fast = ctx.budget(1400, 9000)
-    n_jit = ctx.budget(150, 900)
-    n_def = ctx.budget(40, 300)
-    n_unsafe = ctx.budget(10, 60)
-    streams = ["clean"] * 9 + ["removal"] * 4 + ["outside"] * 4 + ["malformed"] * 3
-    fast = corpus + [gen_case(r, r.choice(streams)) for _ in range(n_fast)]
+    n_fast = ctx.budget(900, 6000)
+    n_jit = ctx.budget(120, 900)
+    n_def = ctx.budget(30, 300)
+    n_unsafe = ctx.budget(8, 60)
+    streams = ["clean"] * 8 + ["removal"] * 4 + ["outside"] * 4 + ["malformed"] * 2 + ["inexact"] * 3
+    enum = enum_cases(ctx.budget(3, 4))
+    ctx.cov["exhaustive_small_scope"] = dict(alphabet=len(ENUM_ALPHABET), max_len=ctx.budget(3, 4), sequences=len(enum))
+    fast = corpus + enum + [gen_case(r, r.choice(streams)) for _ in range(n_fast)]
     jit = corpus + [gen_case(r, r.choice(streams)) for _ in range(n_jit)]
     # numba's default (unchecked) configuration: only cases the model says stay in bounds ...
     dflt = []
     while len(dflt) < n_def:
-        c = gen_case(r, r.choice(["clean", "clean", "removal", "outside"]))
+        c = gen_case(r, r.choice(["clean", "clean", "removal", "outside", "inexact"]))
         if not case_features(c)["beyond"]:
             dflt.append(c)
     # ... plus a few that write out of bounds, each in its own child; quick tier: one pixel past the end only
@@ -479,11 +742,10 @@ def run(ctx: Ctx):
     unsafe_seen = [(c, rr) for c, rr, m in kept if m == "default" and case_features(c)["beyond"]]
     ctx.cov["default_config_out_of_bounds_runs"] = dict(
         runs=len(unsafe_seen), process_crashed=sum(1 for _, rr in unsafe_seen if rr.get("crashed")))
-    for c, rr, m in kept[:2] + kept[len(corpus):len(corpus) + 3]:
+    for c, rr, m in kept[:2] + kept[len(corpus) + len(enum):len(corpus) + len(enum) + 3]:
         ctx.sample(dict(geometry=[c["rows"], c["cols"], c["ph"], c["pw"]], ops=c["ops"][:4], n_ops=len(c["ops"]),
                         mode=m, last=rr["trace"][-1] if rr.get("trace") else None))
-    for item, k_bad, mm in viol:
-        ctx.violations.append(to_violation(item, k_bad, mm))
+    report_violations(ctx, viol)
     (ctx.build / "mismatches.json").write_text(json.dumps(
         [dict(case=c, observed=rr, mode=m) for c, rr, m in mism[:20]], indent=1))
     for c, rr, m in mism:
@@ -504,10 +766,10 @@ def search(ctx: Ctx):
     among sequences the known defects cannot explain (all clusters inside, no removals)."""
     ctx.log("searching for a concrete failing input (clean sequences, bigger budget)")
     r = ctx.rng("search")
-    cases = [gen_case(r, r.choice(["clean", "clean", "clean", "removal"])) for _ in range(ctx.budget(2500, 8000))]
+    cases = [gen_case(r, r.choice(["clean", "clean", "removal", "outside", "inexact"]))
+             for _ in range(ctx.budget(2500, 8000))]
     mism, viol, kept = correspondence(ctx, [(cases, "nojit", 8, None, 1)], tag="s")
-    for item, k_bad, mm in viol:
-        ctx.violations.append(to_violation(item, k_bad, mm))
+    report_violations(ctx, viol)
     ctx.cov["search_sequences"] = len(kept)
 
 
@@ -519,6 +781,8 @@ def replay(ctx: Ctx, rp: dict) -> int:
         return 1
     mode = case.get("mode", "nojit")
     c = {k: case[k] for k in ("rows", "cols", "ph", "pw", "ops")}
+    c["reset_via"] = case.get("reset_via", "charge")
+    c["stream"] = case.get("stream")
     if mode == "default" and case_features(c)["beyond"]:
         print("note: this case writes out of bounds in numba's default configuration; replaying with the bounds check on")
         mode = "checked"
@@ -526,6 +790,19 @@ def replay(ctx: Ctx, rp: dict) -> int:
     print("case:", json.dumps(c))
     print("implementation now returns:", json.dumps([dict(o=t.get("o"), m=t.get("m")) for t in res.get("trace", [])]))
     core.ensure_lib(ctx, targets=["theories/Model/Charge.vo"])
+    from translator import c14 as tr
+
+    gen = ctx.build / "gen"
+    gen.mkdir(parents=True, exist_ok=True)
+    try:
+        text = tr.translate(ctx.repo)
+    except TranslationError:
+        text = tr.FALLBACK
+    (gen / "Gen_C14.v").write_text(text)
+    okg, _, _ = core.coqc(ctx, gen / "Gen_C14.v", [(gen, "PyxelGen")], 300)
+    if not okg:
+        (gen / "Gen_C14.v").write_text(tr.FALLBACK)
+        core.coqc(ctx, gen / "Gen_C14.v", [(gen, "PyxelGen")], 300)
     ok, evals, se = core.coq_eval(ctx, "replay", emit_file([(c, res, mode != "default")]))
     if not ok:
         print("case file did not evaluate:", core.tail(se, 10))
@@ -539,22 +816,27 @@ def replay(ctx: Ctx, rp: dict) -> int:
 META = dict(
     level_text=(
         "Coq theorems, for ALL operation sequences (induction over op lists, no bound on sizes), about an executable "
-        "model over Q of Charge exactly as coded (array/frame state, conversion at pixel centres of entries > 0, "
-        "floor binning, the cached `.array`, numba's unchecked indexing): reads equal the per-pixel accumulator for "
-        "non-negative additions inside the sensitive area whatever the interleaving; binning credits floor(v/ph), "
-        "floor(h/pw) with borders and centre round trip; reads are pure without removals; the model reads exactly "
-        "like an ideal cache-free container for every sequence whose removals never empty the frame "
-        "(C14_remove_then_add_partial, simulation proof). The full statements about clusters outside the area and "
-        "about removals that empty the frame are REFUTED on the faithful model (witnesses proved) and recorded as "
-        "findings. That the model describes the Python is established by correspondence (= testing): generated op "
-        "sequences run on a real detector.charge and are compared with the model inside Coq after every op; the "
-        "implementation's reads are judged inside Coq against the accumulator specification."),
+        "model over Q of Charge as coded after the repairs of C14-F4a/F4b/F5 (array/frame state, conversion at pixel "
+        "centres of entries > 0, floor binning, the mask 0 <= index < n in front of the njit loop whose indexing is "
+        "still modelled as unchecked, the cached `.array`, the array zeroed when a removal empties the frame): reads "
+        "equal the per-pixel accumulator for non-negative additions and clusters ANYWHERE whatever the interleaving; "
+        "with removals they equal the ledger (a removal debits exactly the clusters it takes out) and the ideal "
+        "cache-free container, whose `.frame` they share; the out-of-bounds outcome is unreachable for every "
+        "sequence; reads are pure; clusters outside the sensitive area change no pixel; a reset gives zero; binning "
+        "credits floor(v/ph), floor(h/pw) with borders and centre round trip. The theorems are stated about the "
+        "machine built from Gen_C14.v -- the subscript expressions, mask, threshold and centre formulas the "
+        "translator reads in charge.py / geometry.py on every run -- and C14_source_is_model re-proves that these are "
+        "the model's. That the rest of the model describes the Python is established by correspondence (= testing): "
+        "generated op sequences run on a real detector.charge and are compared with the model inside Coq after "
+        "every op; the implementation's reads are judged inside Coq against the accumulator / ideal container."),
     level_note=(
-        "Trusted: Coq kernel + vm_compute; the correspondence harness and driver; numpy float arithmetic is exact on "
-        "the generated dyadic inputs; pandas index semantics; out-of-bounds accesses are observed via numba's bounds "
-        "check / plain numpy indexing (IndexError), with a sample in the default configuration in isolated processes. "
-        "Not carried: non-dyadic sizes where np.floor_divide may differ from the rational floor on borders; negative "
-        "array entries (outside the property's hypothesis); user-supplied DataFrames with arbitrary indexes."),
-    technique="Coq refinement proof (state machine over Q vs accumulator) + in-Coq correspondence/spec evaluation",
+        "Trusted: Coq kernel + vm_compute; the translator (fail closed), the correspondence harness and driver; numpy "
+        "float sums are exact on the generated dyadic charge values; np.floor_divide is the floor of the exact "
+        "quotient of the two binary64 values; pandas index semantics; out-of-bounds accesses are observed via numba's "
+        "bounds check / plain numpy indexing (IndexError), with a sample in the default configuration in isolated "
+        "processes. Not carried: negative array entries (outside the property's hypothesis: compared with the model, "
+        "not judged); user-supplied DataFrames with arbitrary indexes; set_frame_values; Charge.__array__."),
+    technique="Coq refinement + simulation proofs (state machine over Q vs accumulator / ledger / ideal container), "
+              "translator-regenerated index arithmetic, in-Coq correspondence/spec evaluation",
     design_ref="DESIGN.md section 6, C14",
 )
